@@ -42,7 +42,7 @@ pub fn classify(case: &LedgerCase, sec: &str, model: &crate::model::MResult, obs
     if case.tags.iter().any(|t| t == "shuffled") { obs.class("shuffled-file-order"); }
 }
 
-fn check(case: &LedgerCase, obs: &mut Obs) -> Verdict {
+pub fn check(case: &LedgerCase, obs: &mut Obs) -> Verdict {
     let files = case.files();
     let res = match run_deltas(&files, &case.run_opts()) {
         Ok(r) => r,
